@@ -23,3 +23,4 @@ def rules(ctx):
     # recovery after a torn 1-phase commit rests on complete checksum verification
     S.c12_db_rules(ctx)
     S.c12_tree_rules(ctx)
+    S.cache_reset_rules(ctx)
